@@ -134,6 +134,13 @@ theorem C16_wiring :
           ∧ ∀ j < c.npop, j ≠ k → look c (Slot.M k j) = some (Slot.M k j) := by
   decide
 
+/-- the migration matrix handed to `_integrate_phi`: the scaled rate of the migration source -> dest is stored at
+    `M[index of dest, index of source]`, i.e. `M[i,j]` is dadi's `m_{i+1,j+1}` (rate INTO i FROM j); the frozen flags, the sizes
+    and the sorted proportion lists follow the order of the live demes (shape checks of the translator) -/
+theorem C16_wiring_matrix :
+    migRowIsDest = true ∧ frozenFlagsFollowLiveOrder = true ∧ defaultNeIsRootStartSize = true
+    ∧ sortedPropsShapeOk = true ∧ finalReorderShapeOk = true := by decide
+
 /-- the same through the Boolean specification the driver evaluates -/
 theorem C16_wiring_spec : integCalls.all wiringOk = true := by decide
 
